@@ -1139,8 +1139,29 @@ def r02_4_keys(ctx):
 def _deep_arm(f: Fn, r, arm: str, pred: str, obj: str, typ: str, container: str, parts: List[Tuple[str, str, bool]]):
     """One container arm of Constructor.__type_matches.  `parts` = [(what, index into generic_type_args, recursive?)]: every
     element (key/value/item) must be checked - recursively where `recursive` - before the arm can answer True."""
-    region = [n for n in f.walk() if isinstance(n, (ast.Return,)) and any(
-        p and isinstance(g, ast.Call) and call_name(g) == pred for g, p in f.guards(n))]
+    FAMILY = {'is_generic_sequence': {'list', 'Sequence', 'MutableSequence'}, 'is_generic_mapping': {'dict', 'Mapping', 'MutableMapping'},
+              'is_generic_union': {'Union'}}
+
+    def origin_like(x):
+        return '__origin__' in f.alpha.text(x) or (isinstance(x, ast.Name) and any('__origin__' in norm(v) for v in assigned_from(f, x.id)))
+
+    def arm_guard(g) -> bool:
+        """the arm is selected by the util predicate, or by comparing the type's origin with exactly the predicate's family"""
+        if isinstance(g, ast.Call) and call_name(g) == pred:
+            return True
+        if isinstance(g, ast.Compare) and len(g.ops) == 1 and isinstance(g.ops[0], (ast.In, ast.Is, ast.Eq)) and origin_like(g.left):
+            o = g.comparators[0]
+            els = o.elts if isinstance(o, (ast.Tuple, ast.List, ast.Set)) else [o]
+            return {(dotted_name(x) or norm(x)).split('.')[-1] for x in els} == FAMILY.get(pred, set())
+        return False
+    region = [n for n in f.walk() if isinstance(n, (ast.Return,)) and any(p and arm_guard(g) for g, p in f.guards(n))]
+    # how the element types may be spelt: generic_type_args(T)[i], or X[i] with X bound to T.__args__
+    arg_vars = {n_.targets[0].id for n_ in f.walk() if isinstance(n_, ast.Assign) and len(n_.targets) == 1 and isinstance(n_.targets[0], ast.Name)
+                and norm(n_.value) == '%s.__args__' % typ}
+
+    def elem_type_in(txt: str, idx: int) -> bool:
+        return 'generic_type_args(%s)[%d]' % (typ, idx) in txt or '%s.__args__[%d]' % (typ, idx) in txt or any(
+            '%s[%d]' % (v_, idx) in txt for v_ in arg_vars)
     key = f.key('deep-check:%s' % arm)
     if not region:
         r.fail(key, f.loc(), '__type_matches has no arm for generic %s types: a constructed %s is accepted without looking at its '
@@ -1159,7 +1180,7 @@ def _deep_arm(f: Fn, r, arm: str, pred: str, obj: str, typ: str, container: str,
             inst_before = known_instance(f.guards(ret), obj, {container})
             good = 'all(' in txt and (inst_here or inst_before)
             for what, idx, rec in parts:
-                if rec and 'generic_type_args(%s)[%d]' % (typ, idx) not in txt:
+                if rec and not (elem_type_in(txt, idx) or elem_type_in(norm(v), idx)):
                     good = False
             if not good:
                 ok, why = False, 'the %s arm answers `%s`' % (arm, txt[:70])
@@ -1169,7 +1190,7 @@ def _deep_arm(f: Fn, r, arm: str, pred: str, obj: str, typ: str, container: str,
             ok, why = False, 'the %s arm can answer True for an object that is not a %s' % (arm, container)
             continue
         loops = [n for n in f.walk() if isinstance(n, ast.For) and f.alpha.text(n.iter) in (obj, '%s.items()' % obj, '%s.values()' % obj, '%s.keys()' % obj)
-                 and any(p and isinstance(gg, ast.Call) and call_name(gg) == pred for gg, p in f.guards(n.iter))
+                 and any(p and arm_guard(gg) for gg, p in f.guards(n.iter))
                  and f.cfg.dominates(f.nid(n.iter), f.nid(ret)) and not any(x is n for x in _ancestors_list(ret))]
         if not loops:
             ok, why = False, 'the %s arm answers True without a loop over the elements of %s' % (arm, obj)
@@ -1181,7 +1202,7 @@ def _deep_arm(f: Fn, r, arm: str, pred: str, obj: str, typ: str, container: str,
                     if isinstance(x, ast.Return) and isinstance(x.value, ast.Constant) and x.value.value is False:
                         for a, p in f.guards(x):
                             t = f.alpha.text(a)
-                            if not p and 'generic_type_args(%s)[%d]' % (typ, idx) in t and (
+                            if not p and elem_type_in(t, idx) and (
                                     ('__type_matches(' in t) if rec else ('isinstance(' in t or '__type_matches(' in t)) \
                                     and '<each:' in t:
                                 found = True
@@ -1226,7 +1247,14 @@ def r01_6_deep_recheck(ctx, rid='R01.6'):
     _deep_arm(tm, r, 'sequence', 'is_generic_sequence', obj, typ, 'list', [('item', 0, True)])
     _deep_arm(tm, r, 'mapping', 'is_generic_mapping', obj, typ, 'dict', [('key', 0, False), ('value', 1, True)])
     # union arm: True only through a member that matches
-    ur = [n for n in tm.returns() if any(p and isinstance(g, ast.Call) and call_name(g) == 'is_generic_union' for g, p in tm.guards(n))]
+    def _union_guard(g):
+        if isinstance(g, ast.Call) and call_name(g) == 'is_generic_union':
+            return True
+        if isinstance(g, ast.Compare) and len(g.ops) == 1 and isinstance(g.ops[0], (ast.Is, ast.Eq)) and norm(g.comparators[0]).split('.')[-1] == 'Union':
+            l_ = g.left
+            return '__origin__' in tm.alpha.text(l_) or (isinstance(l_, ast.Name) and any('__origin__' in norm(v_) for v_ in assigned_from(tm, l_.id)))
+        return False
+    ur = [n for n in tm.returns() if any(p and _union_guard(g) for g, p in tm.guards(n))]
     okU = bool(ur)
     for ret in ur:
         v = ret.value
